@@ -1,8 +1,133 @@
-(* Properties/C08.v — placeholder until Proofs/CatIO.v is complete *)
-From Coq Require Import List NArith String.
-From PrefVerif Require Import Lib.Val Lib.Dec Lib.PyStr Model.Meta Model.CatIO.
+(* Properties/C08.v — categorical files survive write -> parse unchanged.
+   Statements only; the proofs are in Proofs/CatIO.v (and Proofs/Meta.v for the shared header).
+   Model: Model/CatIO.v (cat_write = CategoricalInstance.write, cat_parse = parse_lines + parse,
+   readlines / splitlines = the line splitters of parse_file / parse_str).
+
+   wf_cat i (Proofs/CatIO.v) is the quantifier's "well-formed categorical instance with at least one ballot":
+   >= 1 ballot; every ballot has exactly c_num_categories >= 1 categories (any of them may be empty, singleton or
+   larger, alternatives in any order, alternatives may be left unplaced); multiplicities >= 1; the keys of the
+   multiplicity table are the ballot list, duplicate-free; the nine metadata fields and all alternative / category
+   names are free of the ten line boundaries and of outer whitespace (they may be EMPTY); data_type = "cat";
+   alternative ids distinct, category ids distinct; no parser state (reserved_names empty).  The three header
+   counts are NOT required to agree with the ballots (the writer copies them, the reader returns them). *)
+From Coq Require Import String List NArith Permutation Sorted.
+From PrefVerif Require Import Lib.Val Lib.Dec Lib.PyStr Model.Meta Model.CatIO Proofs.Meta Proofs.CatIO.
 Import ListNotations.
-Example C08_tokenize_example :
-  tokenize (lit "{1,2},{},4") = [lit "{1,2}"; lit ","; lit "{}"; lit ",4"].
-Proof. vm_compute. reflexivity. Qed.
-Print Assumptions C08_tokenize_example.
+
+(* ---- the round trip through a file ---------------------------------------------------------------------- *)
+(* parse_file(write(i)) is the instance itself up to the stable sort of the ballot list: sorted_view i *)
+Theorem C08_roundtrip : forall i, wf_cat i ->
+  cat_parse false false (meta0 (lit "cat")) (readlines (cat_write i)) = Ok (sorted_view i).
+Proof. exact roundtrip_readlines. Qed.
+Print Assumptions C08_roundtrip.
+
+(* the same through parse_str (str.splitlines) *)
+Theorem C08_roundtrip_str : forall i, wf_cat i ->
+  cat_parse false false (meta0 (lit "cat")) (splitlines (cat_write i)) = Ok (sorted_view i).
+Proof. exact roundtrip_splitlines. Qed.
+Print Assumptions C08_roundtrip_str.
+
+(* sorted_view differs from i only by the order of the ballot list: same metadata (alternative names and the
+   voter / alternative counts are part of it), same unique-preference count, same category count and names,
+   the same ballots, the same table (as a dict: same entries, and the same multiplicity for every ballot) *)
+Theorem C08_same_content : forall i, wf_cat i ->
+  c_meta (sorted_view i) = c_meta i /\ c_num_unique (sorted_view i) = c_num_unique i /\
+  c_num_categories (sorted_view i) = c_num_categories i /\ c_cat_names (sorted_view i) = c_cat_names i /\
+  Permutation (c_prefs i) (c_prefs (sorted_view i)) /\
+  Permutation (c_mult i) (c_mult (sorted_view i)) /\
+  (forall b, mult_of (c_mult (sorted_view i)) b = mult_of (c_mult i) b).
+Proof. exact sorted_view_same. Qed.
+Print Assumptions C08_same_content.
+
+(* ---- ballots are listed by non-increasing multiplicity --------------------------------------------------- *)
+(* in the instance read back from the file (its ballot list is in file order) every ballot has a multiplicity
+   that is at most that of every ballot before it *)
+Theorem C08_sorted : forall i, wf_cat i ->
+  exists j, cat_parse false false (meta0 (lit "cat")) (readlines (cat_write i)) = Ok j /\
+            StronglySorted (fun x y => (mult_of (c_mult j) y <= mult_of (c_mult j) x)%N) (c_prefs j).
+Proof.
+  intros i W. exists (sorted_view i). split; [now apply roundtrip_readlines|apply sorted_view_non_increasing].
+Qed.
+Print Assumptions C08_sorted.
+
+(* ---- writing the re-parsed instance reproduces the file byte for byte ----------------------------------- *)
+Theorem C08_idempotent : forall i, cat_write (sorted_view i) = cat_write i.
+Proof. exact write_sorted_view. Qed.
+Print Assumptions C08_idempotent.
+
+Theorem C08_idempotent_file : forall i, wf_cat i ->
+  exists j, cat_parse false false (meta0 (lit "cat")) (readlines (cat_write i)) = Ok j /\
+            cat_write j = cat_write i.
+Proof.
+  intros i W. exists (sorted_view i). split; [now apply roundtrip_readlines|apply write_sorted_view].
+Qed.
+Print Assumptions C08_idempotent_file.
+
+(* ---- the ballot grammar ------------------------------------------------------------------------------------ *)
+(* tokenizer + category construction invert the ballot printer (including its strip(", ") and the parser's
+   replace(" ", "")) for EVERY tuple of categories: any number of categories (zero included), each empty,
+   singleton or larger, in first, middle or last position, consecutive empties, all empty *)
+Theorem C08_ties : forall b : ballot,
+  parse_pref (remove_sp (strip_chars (lit ", ") (pref_str b))) = Ok b.
+Proof. exact ties_inverse. Qed.
+Print Assumptions C08_ties.
+
+(* one written line (multiplicity, colon, ballot, newline) is read back, for every non-empty tuple of categories *)
+Theorem C08_ties_line : forall mu c b,
+  ballot_of_line (ballot_line mu (c :: b)) = Ok (mult_of mu (c :: b), c :: b).
+Proof. exact ballot_line_read. Qed.
+Print Assumptions C08_ties_line.
+
+(* ... and also for the tuple with zero categories, which the code accepts ("<mult>: " is written, read back as ()) *)
+Theorem C08_ties_line_any : forall mu b, ballot_of_line (ballot_line mu b) = Ok (mult_of mu b, b).
+Proof. exact ballot_line_read_any. Qed.
+Print Assumptions C08_ties_line_any.
+
+(* strip(", ") is harmless: it removes exactly the trailing separator, and what is left starts with a digit or
+   an opening brace and ends with a digit or a closing brace *)
+Theorem C08_strip_harmless : forall c b,
+  strip_chars (lit ", ") (pref_str (c :: b)) ++ lit ", " = pref_str (c :: b) /\
+  starts_good (strip_chars (lit ", ") (pref_str (c :: b))) /\
+  ends_good (strip_chars (lit ", ") (pref_str (c :: b))).
+Proof.
+  intros c b. split; [rewrite strip_pref_str; symmetry; apply pref_str_body|apply stripped_ends].
+Qed.
+Print Assumptions C08_strip_harmless.
+
+(* ---- the hypotheses are satisfiable: a concrete instance ------------------------------------------------- *)
+(* three categories (one with an EMPTY name), an alternative with an EMPTY name, ballots with empty categories
+   first / middle / last, consecutive empties, an all-empty ballot, a category listed in decreasing order,
+   two ballots that differ only inside a category, multiplicity ties *)
+Definition ex_meta : meta :=
+  mkMeta (lit "f.cat") (lit "a title: {1, 2}") [] (lit "cat") (lit "original") [] (lit "a.cat,b.cat")
+         (lit "2020-01-01") [] 3 17
+         [(1%N, lit "one"); (2%N, []); (30%N, lit "# ALTERNATIVE NAME 9: x")] [].
+Definition ex_ballots : list (ballot * N) :=
+  [ ([[]; [1]; [2; 30]], 2); ([[1; 2]; []; []], 2); ([[]; []; []], 1); ([[30]; [2]; [1]], 5);
+    ([[2; 1]; []; []], 2); ([[]; []; [30; 2; 1]], 5) ]%N.
+Definition ex_inst : cinst :=
+  mkCinst ex_meta 6 3 [(1%N, lit "good"); (2%N, []); (3%N, lit "bad, really")] (map fst ex_ballots) ex_ballots.
+
+Example C08_example_wf : wf_cat ex_inst.
+Proof.
+  constructor.
+  - discriminate.
+  - discriminate.
+  - repeat constructor.
+  - repeat constructor; discriminate.
+  - reflexivity.
+  - repeat constructor; simpl; intuition discriminate.
+  - repeat split; reflexivity.
+  - reflexivity.
+  - reflexivity.
+  - split; [repeat constructor; reflexivity|repeat constructor; simpl; intuition discriminate].
+  - split; [repeat constructor; reflexivity|repeat constructor; simpl; intuition discriminate].
+Qed.
+Print Assumptions C08_example_wf.
+
+Example C08_example_roundtrip :
+  cat_parse false false (meta0 (lit "cat")) (readlines (cat_write ex_inst)) = Ok (sorted_view ex_inst)
+  /\ map (mult_of (c_mult ex_inst)) (c_prefs (sorted_view ex_inst)) = [5; 5; 2; 2; 2; 1]%N
+  /\ c_prefs (sorted_view ex_inst) <> c_prefs ex_inst.
+Proof. split; [vm_compute; reflexivity|split; [vm_compute; reflexivity|vm_compute; discriminate]]. Qed.
+Print Assumptions C08_example_roundtrip.
